@@ -52,6 +52,7 @@ template<class V> static void run(const VpCase* c, VpOutcome* o) {
     }
     V a = mk<V>(al), b = mk<V>(bl); IV e = mk<IV>(el);
     V r = a; IV ir = e; bool int_result = false;
+    poison_below(al[0] ^ f);
     if (!scalar) {
         switch (f) {
         case F_FREXP: { IV out = mk<IV>(el); r = avel::frexp(a, &out); rd<IV>(out, gote); break; }
